@@ -681,3 +681,7 @@ mod tests {
         assert_eq!(&ServerCommand::from_bytes(bytes).unwrap(), command);
     }
 }
+
+#[cfg(kani)]
+#[path = "/verif/harness/server/hooks/command.rs"]
+pub(crate) mod verif_hook;
